@@ -65,6 +65,9 @@ static Verdict runCase(const HistCase& c, Info& info)
         info.tag("final_batch_mixed_types");
     if (sameType)
         info.tag("history_ends_with_same_message_type");
+    for (const auto& r : c.last.packets)
+        if (r.kind == rkGeneric && r.msgType == 0)
+            info.tag("final_batch_has_packet_of_undefined_message_type");
     for (const auto& h : c.history)
         if (h.packets.empty())
             info.tag("history_contains_empty_batch");
@@ -98,6 +101,16 @@ static rc::Gen<HistCase> genCase(int tier)
             c.last.packets.front().len = std::min(c.last.packets.front().len, PacketRecipe::maxLen(prev.kind));
             if (prev.kind == rkGeneric && c.last.packets.front().len == 0)
                 c.last.packets.front().len = 1;
+        }
+        // rare class: a packet whose payload type carries message type 0 ("undefined", what the decoder hands out for
+        // payloads it could not type) - the encoder's own sentinel value for "no message type yet"
+        if (*range<int>(0, 7) == 0)
+        {
+            PacketRecipe& r = c.last.packets[*range<size_t>(0, c.last.packets.size() - 1) * (*range<int>(0, 1))];
+            r.kind = rkGeneric;
+            r.msgType = 0;
+            r.ptype = *rc::gen::element<uint8_t>(0x20, 0x01, 0x00);
+            r.len = std::max<uint32_t>(1, std::min<uint32_t>(r.len, 65535));
         }
         return c;
     });
